@@ -100,7 +100,20 @@ def check(pid, tier, seed, replay=None):
                 other += 1
             if "drift" in tag:
                 drift += 1
-        nprog = sum(len(rr) - 1 for rr in shard_lines)
+        tree_n = 0
+        if pid == "C03" and not replay:
+            # hooks along derivation TREES (ancestors before descendants, exactly once, whatever siblings exist):
+            # the derivation programs of C05 that aim at hook-slice capacities, judged on the hook log only
+            from checks import tree
+            tp = go_build("./players/tree", sc.path("treeplayer"))
+            tscripts = tree.hook_fork_programs(1500 if thorough else 400, seed)
+            trecs = run_player(tp, sc, "tree", [json.dumps(x) for x in tscripts], shards=8)
+            tbads = validate_sharded(sc.dir, "LoggerTreeTrace", "hist.ndjson", [rr for _, rr in trecs], 8, FAMILY)
+            tree_n = len(trecs)
+            for ri, k, e, sig in tbads:
+                v.violation("derivation program %s: hooks run by the emitting logger are not its own hooks, once each, in order" % json.loads(trecs[ri][0])["id"],
+                            {"property": pid, "kind": "tree", "script": json.loads(trecs[ri][0]), "recording": [json.loads(x) for x in trecs[ri][1]], "bad_line": k + 1})
+        nprog = sum(len(rr) - 1 for rr in shard_lines) + tree_n
         if drift:
             log("%s: MODEL DRIFT: %d recordings do not follow Render() of EventDoc (no verdict)" % (pid, drift))
         sample = []
